@@ -11,7 +11,8 @@ LEVEL = 'exploration'
 RULE = ('Hypothesis draws a valid call sequence on Client / LmtpClient (banner, ehlo|helo|lhlo, 1..3 transactions of mailfrom, '
         'rcptto x 0..4, data, send_data|send_empty_data, rset, custom commands, quit) and a reply script (any code class, 1..3 '
         'lines per reply, PIPELINING advertised or not, reply stream cut by a generated chunk pattern) served by a reactive '
-        'in-memory peer. non-trivial = pipelined, with >=1 rejected and >=1 accepted command and a multi-line or cut reply; '
+        'in-memory peer; the same mailbox may be named twice in a transaction, a reply may end in a bare code line; a second family runs '
+        'two such clients at the same time with their calls interleaved by a generated schedule. non-trivial = pipelined, with >=1 rejected and >=1 accepted command and a multi-line or cut reply; '
         'distinct = distinct (calls, script, chunks)')
 ASSUMPTIONS = ['the peer answers each complete command line immediately and in order (a conforming server)',
                'after a DATA command that is not answered 354 the caller issues RSET (as the relay does); a transaction is never abandoned by a second MAIL without DATA or RSET',
@@ -41,7 +42,8 @@ class ReactivePeer(object):
         out = []
         for l in lines[:-1]:
             out.append(('%s-%s\r\n' % (code, l)).encode('utf-8'))
-        out.append(('%s %s\r\n' % (code, lines[-1])).encode('utf-8'))
+        # a final line without text is sent as the bare code (RFC 5321 4.2: Reply-code [ SP textstring ] CRLF)
+        out.append(('%s %s\r\n' % (code, lines[-1])).encode('utf-8') if lines[-1] else ('%s\r\n' % code).encode('ascii'))
         return b''.join(out)
 
     def _owe(self, command):
@@ -113,7 +115,34 @@ def esc_for(code):
 
 
 def run_case(case):
-    """case: dict(lmtp, pipelining, calls=[...], script=[(code, [lines])...], chunks=[...]) -> failures, labels, nontrivial"""
+    """case: dict(lmtp, pipelining, calls=[...], script=[(code, [lines])...], chunks=[...]) -> failures, nontrivial"""
+    res = []
+    for _ in steps(case, res):
+        pass
+    return res[0]
+
+
+def run_pair(case_a, case_b, schedule):
+    """Two clients alive at the same time (as in a relay pool); their calls are interleaved by `schedule` (0 = a, 1 = b)."""
+    ra, rb = [], []
+    ga, gb = steps(case_a, ra), steps(case_b, rb)
+    live = [ga, gb]
+    k = 0
+    while live:
+        pick = schedule[k % len(schedule)] if schedule else 0
+        k += 1
+        g = live[pick % len(live)]
+        try:
+            next(g)
+        except StopIteration:
+            live.remove(g)
+    fa, nta = ra[0]
+    fb, ntb = rb[0]
+    return [(sig + ':two-clients', msg) for sig, msg in fa + fb], (nta or ntb)
+
+
+def steps(case, result):
+    """Generator form of one client conversation: yields after every API call; appends (failures, nontrivial) to `result`."""
     lmtp = case['lmtp']
     script = [(c, list(l)) for c, l in case['script']]
     peer = ReactivePeer(script, case['chunks'], lmtp)
@@ -145,6 +174,7 @@ def run_case(case):
         for call in case['calls']:
             if out:
                 break
+            yield
             name = call[0]
             if name in ('ehlo', 'helo', 'lhlo'):
                 r = getattr(client, name)('client.example')
@@ -212,7 +242,7 @@ def run_case(case):
     codes = [c for c, _ in script[:len(returned)]]
     nt = (case['pipelining'] and any(c[0] in '45' for c in codes[2:]) and any(c[0] == '2' for c in codes[2:])
           and (any(len(l) > 1 for _, l in script[:len(returned)]) or case['chunks'] != [4096]))
-    return out, nt
+    result.append((out, nt))
 
 
 def case_accepted_rcpts(returned):
@@ -241,6 +271,11 @@ def reply_for(draw, slot, force=None):
     esc = esc_for(code)
     if esc:
         lines[0] = '%s.%d.%d %s' % (esc, draw(st.integers(0, 9)), draw(st.integers(0, 9)), lines[0])
+    if draw(st.integers(0, 9)) == 0:
+        if n == 1:
+            lines = ['']                # the whole reply is the bare code
+        else:
+            lines[-1] = ''
     return code, lines
 
 
@@ -277,7 +312,9 @@ def case_strategy(draw):
         nr = draw(st.integers(0, 4))
         rcpt_codes = []
         for k in range(nr):
-            rcpt_codes.append(add(['rcptto', 'r%d.%d@y.org' % (t, k)]))
+            # the same mailbox may be named twice in one transaction
+            same = draw(st.integers(0, k - 1)) if k and draw(st.integers(0, 4)) == 0 else k
+            rcpt_codes.append(add(['rcptto', 'r%d.%d@y.org' % (t, same)]))
         end = draw(st.sampled_from(['data', 'data', 'data', 'rset']))
         if end == 'data':
             dcode = add(['data'], force=draw(st.sampled_from(['354', '354', '354', '550', '451', '503'])))
@@ -307,21 +344,44 @@ def run_shard(ctx):
         ctx.record(repr(case), nt, labels=labels, case=case, failures=f)
     hyp.drive(ctx, case_strategy(), one, ctx.n(8000, 200000))
 
+    def two(v):
+        a, b, schedule = v
+        f, nt = run_pair(a, b, schedule)
+        ctx.record(repr(v), nt, labels=['two-clients'], case={'pair': [a, b], 'schedule': schedule}, failures=f)
+    hyp.drive(ctx, st.tuples(case_strategy(), case_strategy(), st.lists(st.integers(0, 1), min_size=1, max_size=12)), two,
+              ctx.n(1500, 30000), salt=1)
+
 
 def replay(case):
+    if 'pair' in case:
+        try:
+            a, b = [_sanitise(c) for c in case['pair']]
+            sched = [int(x) % 2 for x in case.get('schedule', [])] or [0]
+        except Exception:
+            return []
+        if a is None or b is None:
+            return []
+        return run_pair(a, b, sched)[0]
+    case = _sanitise(case)
+    if case is None:
+        return []
+    f, _ = run_case(case)
+    return f
+
+
+def _sanitise(case):
     try:
         script = [(str(c), [str(x) for x in l]) for c, l in case['script']]
     except Exception:
-        return []
+        return None
     for c, l in script:
-        if len(c) != 3 or not c.isdigit() or c[0] not in '2345' or not l or any((not x or '\r' in x or '\n' in x) for x in l):
-            return []
+        if len(c) != 3 or not c.isdigit() or c[0] not in '2345' or not l or any(('\r' in x or '\n' in x) for x in l) \
+                or any(not x for x in l[:-1]):
+            return None
         esc = esc_for(c)
-        if esc and not l[0].startswith(esc + '.'):
-            return []
+        if esc and l != [''] and not l[0].startswith(esc + '.'):
+            return None
     calls = [c for c in case.get('calls', []) if isinstance(c, list) and c]
     # structural validity of the call sequence and script/slot alignment cannot be re-derived after arbitrary
     # shrinking: a replay only accepts cases whose script length matches what the calls consume
-    case = dict(case, calls=calls, script=[[c, l] for c, l in script], chunks=[int(x) for x in case.get('chunks', [4096])] or [4096])
-    f, _ = run_case(case)
-    return f
+    return dict(case, calls=calls, script=[[c, l] for c, l in script], chunks=[int(x) for x in case.get('chunks', [4096])] or [4096])
